@@ -300,11 +300,11 @@ func (f *Font) encodeCharstrings() map[string]string {
 	return charStrings
 }
 
-func writeEncoding(encoding []string) string {
+func writeEncoding(encoding []string, glyphs map[string]string) string {
 	if len(encoding) != 256 {
 		return ""
 	}
-	if isStandardEncoding(encoding) {
+	if isStandardEncoding(encoding, glyphs) {
 		return "/Encoding StandardEncoding def\n"
 	}
 
@@ -321,14 +321,22 @@ func writeEncoding(encoding []string) string {
 	return b.String()
 }
 
-func isStandardEncoding(encoding []string) bool {
+// isStandardEncoding reports whether reading back "StandardEncoding" gives
+// the same encoding for a font with the given glyphs: codes may only be
+// unassigned where the font lacks the glyph of the standard encoding.
+func isStandardEncoding(encoding []string, glyphs map[string]string) bool {
 	if len(encoding) != 256 {
 		return false
 	}
 	for i, s := range encoding {
-		if s != psenc.StandardEncoding[i] && s != ".notdef" {
-			return false
+		std := psenc.StandardEncoding[i]
+		if s == std {
+			continue
 		}
+		if _, present := glyphs[std]; s == ".notdef" && !present {
+			continue
+		}
+		return false
 	}
 	return true
 }
@@ -365,7 +373,7 @@ var tmpl = template.Must(template.New("type1").Funcs(template.FuncMap{
 /UnderlineThickness {{.UnderlineThickness}} def
 end def
 /FontName {{.FontName|PN}} def
-{{ .Encoding|E -}}
+{{ E .Encoding .CharStrings -}}
 /PaintType 0 def
 /FontType 1 def
 /FontMatrix {{ .FontMatrix }} def
